@@ -26,29 +26,14 @@ Proof. exact occur_ok. Qed.
 Theorem C07_tag_ok : forall s, tag_spelling s = true -> omap tag_sem (convert_tag_head s) = tag_value s.
 Proof. exact tag_ok. Qed.
 
-(* ---- text ----
-   FULL STATEMENT (false of the faithful model, see the three C07_text_ok_refuted theorems):
-     forall tok, text_spelling tok = true -> Some (text_value_model tok) = text_lit tok.
-   Provable part: every literal that has an RFC value is stored with exactly that value; the excluded class is
-   Render.text_undenotable (grammar-admitted but without denotation: lone / reversed surrogate, \u{...} that is not a
-   scalar value), which the code accepts with the escape dropped instead of rejecting. *)
-Theorem C07_text_ok_partial : forall tok v, text_lit tok = Some v -> text_value_model tok = v.
-Proof. exact text_ok_partial. Qed.
+(* ---- text: every admitted text literal is stored with exactly its RFC 9682 value, and rejected exactly when it has
+   none (lone / reversed surrogate escape, \u{...} that is not a Unicode scalar value); full since 51d94c0 ---- *)
+Theorem C07_text_ok : forall tok, text_spelling tok = true -> text_value_model tok = text_lit tok.
+Proof. exact text_ok. Qed.
 
+(* the specification assigns values only to spellings the token grammar admits *)
 Theorem C07_text_lit_grammar : forall tok v, text_lit tok = Some v -> text_spelling tok = true.
 Proof. exact text_lit_grammar. Qed.
-
-Theorem C07_text_ok_refuted : exists tok,
-  text_spelling tok = true /\ text_lit tok = None /\ text_value_model tok = [].
-Proof. exact text_ok_refuted. Qed.
-
-Theorem C07_text_ok_refuted_swallow : exists tok,
-  text_spelling tok = true /\ text_lit tok = None /\ text_value_model tok = [].
-Proof. exact text_ok_refuted_swallow. Qed.
-
-Theorem C07_text_ok_refuted_range : exists tok,
-  text_spelling tok = true /\ text_lit tok = None /\ text_value_model tok = [].
-Proof. exact text_ok_refuted_range. Qed.
 
 (* ---- h'...' : whitespace / comment removal + base16, on every admitted spelling (full since 320d006) ---- *)
 Theorem C07_b16_ok : forall tok, bytes_b16_spelling tok = true -> bytes_b16_model tok = b16_lit tok.
@@ -118,10 +103,14 @@ Example C07_example_occur_tag :    (* 0x3*0b101 ; *5 ; 5* ; #6.0x20 *)
   /\ tag_spelling [35;54;46;48;120;50;48] = true /\ convert_tag_head [35;54;46;48;120;50;48] = Some (TTagged (Some 32)).
 Proof. vm_compute. repeat split; reflexivity. Qed.
 
-Example C07_example_text :         (* a, A, a surrogate pair, \u{1F073}, \n *)
-  text_lit [34; 97; 92;117;48;48;52;49; 92;117;68;56;51;67; 92;117;68;67;55;51; 92;117;123;49;70;48;55;51;125; 92;110; 34]
-  = Some [97; 65; 127091; 127091; 10].
-Proof. vm_compute. reflexivity. Qed.
+Example C07_example_text :         (* a, A, a surrogate pair, \u{1F073}, \n are stored; the escape in the second literal
+                                      (a lone surrogate, kf-c07-text-escape-dropped, fixed) makes it a parse error *)
+  text_value_model [34; 97; 92;117;48;48;52;49; 92;117;68;56;51;67; 92;117;68;67;55;51; 92;117;123;49;70;48;55;51;125; 92;110; 34]
+  = Some [97; 65; 127091; 127091; 10]
+  /\ text_spelling [34; 92; 117; 100; 56; 48; 48; 34] = true /\ text_value_model [34; 92; 117; 100; 56; 48; 48; 34] = None
+  /\ text_value_model [34; 92; 117; 68; 56; 48; 48; 92; 117; 48; 48; 52; 49; 34] = None
+  /\ text_value_model [34; 92; 117; 123; 49; 49; 48; 48; 48; 48; 125; 34] = None.
+Proof. vm_compute. repeat split; reflexivity. Qed.
 
 Example C07_example_bytes :        (* h'0a ;c<LF> fF' ; b64 with base64url alphabet, a comment and padding ; mixed alphabets *)
   bytes_b16_spelling [104;39;48;97;32;59;99;10;32;102;70;39] = true
